@@ -48,6 +48,32 @@ LABELS = ['L', 'M', 'loop', 'outer', 'a', 'x']
 # character classes an IdentifierName is spelled from (pre-Unicode-3.0 characters only)
 ID_START_CLASSES = [['a', 'x', 'Z'], ['$', '_'], [u'\u00e9', u'\u03a9', u'\u0434', u'\u65e5']]
 ID_PART_CLASSES = ID_START_CLASSES + [['0', '1', '9'], [u'\u0300', u'\u0301'], [u'\u0663', u'\u0966'], [u'\u203f', u'\u2040']]
+def stable_identifier_characters():
+    """BMP characters that are identifier characters whichever Unicode version (3.0 or later, ES5 7.6) an
+    implementation follows: the general category is a letter / letter-number category (start) or a mark /
+    digit / connector category (part) both in Unicode 3.2 and in the interpreter's current database.
+    Characters outside the BMP are two code units to ES5 and not identifier characters."""
+    import unicodedata
+    old = unicodedata.ucd_3_2_0
+    start_cats = ('Lu', 'Ll', 'Lt', 'Lm', 'Lo', 'Nl')
+    part_cats = ('Mn', 'Mc', 'Nd', 'Pc')
+    start, part = [], []
+    for cp in range(0x80, 0x10000):
+        if 0xd800 <= cp <= 0xdfff:
+            continue
+        ch = chr(cp)
+        a, b = unicodedata.category(ch), old.category(ch)
+        if a in start_cats and b in start_cats:
+            start.append(ch)
+        elif a in part_cats and b in part_cats:
+            part.append(ch)
+    return start, part
+
+
+STABLE_START, STABLE_PART = stable_identifier_characters()
+ID_START_CLASSES.append(STABLE_START)
+ID_PART_CLASSES.append(STABLE_START)
+ID_PART_CLASSES.append(STABLE_PART)
 RESERVED_NAMES = frozenset(
     'break case catch continue debugger default delete do else finally for function if in instanceof new return '
     'switch this throw try typeof var void while with class const enum export extends import super null true false '
